@@ -1,0 +1,212 @@
+//! H2: frame injection (a real `Connection` emits attacker-chosen frame bytes inside its next correctly
+//! protected packet of a packet-number space) and the read-only probes the frame-rules trace needs.
+use super::super::{Connection, ConnectionError, State};
+use crate::{packet::SpaceId, ConnectionId, StreamId};
+
+/// Pending injections and the log of the ones written
+#[derive(Default, Debug)]
+pub struct Inject {
+    pending: [Vec<u8>; 3],
+    /// (space, packet number, bytes written; 0 = dropped because it did not fit)
+    log: Vec<(u8, u64, usize)>,
+}
+
+/// Facts about the connection that decide how a peer frame is judged (read-only)
+#[derive(Debug, Clone, PartialEq, Eq)]
+pub struct FrameProbe {
+    pub side_is_server: bool,
+    /// handshake | established | closed | draining | drained
+    pub state: &'static str,
+    /// `read_crypto`: the encryption level new CRYPTO data is expected at (0, 1, 2)
+    pub crypto_expected: usize,
+    /// per space: `crypto_stream.bytes_read()`
+    pub crypto_read: [u64; 3],
+    pub crypto_buffer_size: usize,
+    /// per space: next packet number to be sent
+    pub next_pn: [u64; 3],
+    /// `PacketNumberFilter::prev_skipped_packet_number`
+    pub skipped_pn: Option<u64>,
+    /// remote CID queue: (offset, cursor, entries as Option<(cid, has reset token)>)
+    pub rem_cids: (u64, usize, Vec<Option<(ConnectionId, bool)>>),
+    pub rem_cid_active_empty: bool,
+    pub retire_cids_pending: usize,
+    /// local CID state: (cid_len, issued, number of active sequence numbers)
+    pub local_cids: (usize, u64, usize),
+    pub issue_cids_limit: u64,
+    pub datagram_window: Option<usize>,
+    pub dgram_in_buffered: usize,
+    /// last ACK_FREQUENCY sequence number seen
+    pub ack_frequency_last: Option<u64>,
+    pub path_challenge: Option<u64>,
+    pub path_responses: usize,
+    /// per space: number of ranges in `pending_acks`
+    pub pending_ack_ranges: [usize; 3],
+    /// per space: bytes buffered by the CRYPTO assembler (sum of chunk lengths)
+    pub crypto_buffered: [usize; 3],
+    /// sum of the chunk lengths buffered by every receive-stream assembler
+    pub recv_buffered: usize,
+    /// `StreamsState::next_remote`: per direction, how many peer-initiated streams count as opened
+    pub next_remote: [u64; 2],
+    /// `StreamsState::max_remote`: per direction, how many streams the peer may open
+    pub max_remote: [u64; 2],
+    /// error the connection ended with: (kind, code, frame type) where kind is
+    /// transport | peer-transport | peer-app | reset | timeout | version | local | cids
+    pub error: Option<(&'static str, u64, Option<u64>)>,
+}
+
+/// Facts about one stream id (read-only)
+#[derive(Debug, Clone, PartialEq, Eq, Default)]
+pub struct StreamProbe {
+    /// 0 = no entry (never opened or closed), 1 = entry without an open `Recv`, 2 = open `Recv`
+    pub recv: u8,
+    pub recv_end: u64,
+    pub recv_final: Option<u64>,
+    pub recv_reset: bool,
+    pub recv_stopped: bool,
+    pub recv_sent_max: u64,
+    /// 0 = no entry, 1 = entry without an open `Send`, 2 = open `Send`
+    pub send: u8,
+    /// local `next` index / `max_remote` of the id's direction
+    pub next_local: u64,
+    pub max_remote: u64,
+    pub data_recvd: u64,
+    pub local_max_data: u64,
+    pub stream_receive_window: u64,
+}
+
+impl Connection {
+    /// Queue `bytes` to be written verbatim at the start of the frames of the next packet sent in `space`
+    /// (0 Initial, 1 Handshake, 2 Data) and force such a packet. Returns false when the space has no keys.
+    pub fn verif_inject_frames(&mut self, space: u8, bytes: Vec<u8>) -> bool {
+        let Some(&space_id) = [SpaceId::Initial, SpaceId::Handshake, SpaceId::Data].get(space as usize)
+        else {
+            return false;
+        };
+        if self.spaces[space_id].crypto.is_none() || self.state.is_closed() {
+            return false;
+        }
+        self.verif_inject.pending[space as usize].extend_from_slice(&bytes);
+        self.spaces[space_id].ping_pending = true;
+        true
+    }
+
+    /// (space, packet number, bytes written) of the injections written since the last call
+    pub fn verif_take_injected(&mut self) -> Vec<(u8, u64, usize)> {
+        std::mem::take(&mut self.verif_inject.log)
+    }
+
+    /// Bytes still waiting to be written, per space
+    pub fn verif_injection_pending(&self) -> [usize; 3] {
+        [
+            self.verif_inject.pending[0].len(),
+            self.verif_inject.pending[1].len(),
+            self.verif_inject.pending[2].len(),
+        ]
+    }
+
+    /// Called at the start of `populate_packet`: true = the injected bytes were written (the caller adds a
+    /// PING and nothing else, so that the packet's outcome at the receiver is due to the injected frames)
+    pub(in crate::connection) fn verif_write_injected(
+        &mut self,
+        space_id: SpaceId,
+        buf: &mut Vec<u8>,
+        max_size: usize,
+        pn: u64,
+    ) -> bool {
+        let i = space_id as usize;
+        if self.verif_inject.pending[i].is_empty() {
+            return false;
+        }
+        let bytes = std::mem::take(&mut self.verif_inject.pending[i]);
+        if buf.len() + bytes.len() + 8 < max_size {
+            buf.extend_from_slice(&bytes);
+            self.verif_inject.log.push((i as u8, pn, bytes.len()));
+            true
+        } else {
+            self.verif_inject.log.push((i as u8, pn, 0));
+            false
+        }
+    }
+
+    /// Read-only facts for the frame-rules model
+    pub fn verif_frame_probe(&self) -> FrameProbe {
+        let sp = [SpaceId::Initial, SpaceId::Handshake, SpaceId::Data];
+        let (buffer, cursor, offset) = self.rem_cids.verif_state();
+        let (_, issued, active, _, _) = self.local_cid_state.verif_state();
+        let crypto_expected = if !self.state.is_handshake() {
+            2
+        } else if self.highest_space == SpaceId::Initial {
+            0
+        } else {
+            1
+        };
+        let error = self.error.as_ref().map(|e| match e {
+            ConnectionError::TransportError(t) => {
+                ("transport", u64::from(t.code), t.frame.map(|f| f.verif_raw()))
+            }
+            ConnectionError::ConnectionClosed(c) => (
+                "peer-transport",
+                u64::from(c.error_code),
+                c.frame_type.map(|f| f.verif_raw()),
+            ),
+            ConnectionError::ApplicationClosed(c) => ("peer-app", c.error_code.into_inner(), None),
+            ConnectionError::Reset => ("reset", 0, None),
+            ConnectionError::TimedOut => ("timeout", 0, None),
+            ConnectionError::VersionMismatch => ("version", 0, None),
+            ConnectionError::LocallyClosed => ("local", 0, None),
+            ConnectionError::CidsExhausted => ("cids", 0, None),
+        });
+        FrameProbe {
+            side_is_server: self.side.is_server(),
+            state: match self.state {
+                State::Handshake(_) => "handshake",
+                State::Established => "established",
+                State::Closed(_) => "closed",
+                State::Draining => "draining",
+                State::Drained => "drained",
+            },
+            crypto_expected,
+            crypto_read: sp.map(|s| self.spaces[s].crypto_stream.bytes_read()),
+            crypto_buffer_size: self.config.crypto_buffer_size,
+            next_pn: sp.map(|s| self.spaces[s].next_packet_number),
+            skipped_pn: self.packet_number_filter.verif_prev_skipped(),
+            rem_cids: (
+                offset,
+                cursor,
+                buffer
+                    .into_iter()
+                    .map(|e| e.map(|(cid, tok)| (cid, tok.is_some())))
+                    .collect(),
+            ),
+            rem_cid_active_empty: self.rem_cids.active().is_empty(),
+            retire_cids_pending: self.spaces[SpaceId::Data].pending.retire_cids.len(),
+            local_cids: (self.local_cid_state.cid_len(), issued, active.len()),
+            issue_cids_limit: self.peer_params.issue_cids_limit(),
+            datagram_window: self.config.datagram_receive_buffer_size,
+            dgram_in_buffered: self.datagrams.recv_buffered,
+            ack_frequency_last: self.ack_frequency.verif_state().2,
+            path_challenge: self.path.challenge,
+            path_responses: self.path_responses.verif_state().len(),
+            pending_ack_ranges: sp.map(|s| self.spaces[s].pending_acks.ranges().len()),
+            crypto_buffered: sp.map(|s| {
+                self.spaces[s]
+                    .crypto_stream
+                    .verif_state()
+                    .2
+                    .iter()
+                    .map(|c| c.1)
+                    .sum()
+            }),
+            recv_buffered: self.streams.verif_recv_buffered(),
+            next_remote: self.streams.verif_remote_counts().0,
+            max_remote: self.streams.verif_remote_counts().1,
+            error,
+        }
+    }
+
+    /// Read-only facts about one stream id for the frame-rules model
+    pub fn verif_stream_probe(&self, id: u64) -> StreamProbe {
+        self.streams.verif_probe(StreamId(id))
+    }
+}
+
